@@ -45,7 +45,13 @@ EXPLANATION = (
     "takes that exception; (11) SegmentFetcher._do_loop touches nothing that stop() invalidated and reports nothing to the "
     "node unless self._running was tested (in _do_loop or in front of every call of it): no_more_shares forwarded to the "
     "stopped fetcher wakes its loop, and an exception there is reported as fetch_failed for a segment whose blocks were "
-    "all fetched. Undecided: that the loop's choices reach k for every fault timing; "
+    "all fetched; (12) a share leaves the fetcher's candidate containers only for a reason of its own: every operation of a "
+    "SegmentFetcher method that can take entries out of the unused list self._shares removes exactly the share that is handed to "
+    "_start_share (or one whose block is already held), every removal from _active_share_map / _overdue_share_map is keyed by the "
+    "(shnum, share) of the event _block_request_activity is handling, self._blocks loses nothing - except where the fetcher stops "
+    "or has stopped; copies that keep every entry (sorted / concatenated re-bindings) are not removals. "
+    "Undecided: that the loop's choices reach k for every fault timing; code outside SegmentFetcher that reaches into a fetcher's "
+    "lists, and a list handed to a foreign function that mutates it; "
     "the value-level correctness of the hash-tree walk (C35 / C02.8 decide it) and exceptions of set_hashes that are not "
     "explicit rejections; whether a try/except around the hand-over in got_shares that swallows the error is meant (C03.1 "
     "reports such a path as a lost event); "
@@ -1571,6 +1577,262 @@ def _rule_stopped_fetcher(ctx: Context):
                                                                                     w.brief()), w)
 
 
+UNUSED = "self._shares"
+SHARE_MAPS = ("self._active_share_map", "self._overdue_share_map")
+BLOCKS = "self._blocks"
+SHRINKERS = ("remove", "pop", "popitem", "popleft", "clear", "discard", "difference_update", "intersection_update",
+             "symmetric_difference_update", "__delitem__")
+COPIERS = ("sorted", "list", "dict", "set", "copy", "reversed", "DictOfSets")
+
+
+def _class_funcs(ci):
+    out, todo = [], list(ci.methods.values())
+    while todo:
+        f = todo.pop()
+        out.append(f)
+        todo.extend(f.nested.values())
+    return sorted(out, key=lambda f: f.qual)
+
+
+def _shrink_ops(fn, tracked):
+    """[(cfg node, container path, kind, ast of the operation, payload)] for every operation of `fn` that can take
+    entries out of one of the `tracked` containers.  kind: 'elem' (payload: (key expressions, bound name or None)),
+    'all' (clear / del of the container / slice delete), 'rebind' (payload: the new value, None when it cannot be seen)."""
+    fx = _fnorm(fn)
+    out = []
+    for n in fn.cfg().nodes:
+        if n.kind in ("entry", "exit", "raise"):
+            continue
+        a = n.ast
+        for c in node_calls(n):
+            nm = _cn(fn, n, c)
+            if "." not in nm:
+                continue
+            recv, meth = nm.rsplit(".", 1)
+            if recv not in tracked or meth not in SHRINKERS:
+                continue
+            if meth in ("clear", "popitem", "popleft", "intersection_update", "difference_update", "symmetric_difference_update"):
+                out.append((n, recv, "all", c, None))
+            else:
+                bound = None
+                if meth == "pop" and n.kind == "stmt" and isinstance(a, ast.Assign) and a.value is c and len(a.targets) == 1 \
+                        and isinstance(a.targets[0], ast.Name):
+                    bound = a.targets[0].id
+                out.append((n, recv, "elem", c, (list(c.args), bound)))
+        if n.kind != "stmt":
+            continue
+        if isinstance(a, ast.Delete):
+            ts = list(a.targets)
+            while ts:
+                t = ts.pop()
+                if isinstance(t, (ast.Tuple, ast.List)):
+                    ts.extend(t.elts)
+                elif isinstance(t, ast.Subscript):
+                    p = attr_path(fx.resolve(n, t.value)) if isinstance(t.value, ast.Name) else attr_path(t.value)
+                    if p in tracked:
+                        if isinstance(t.slice, ast.Slice):
+                            out.append((n, p, "all", t, None))
+                        else:
+                            out.append((n, p, "elem", t, ([t.slice], None)))
+                elif attr_path(t) in tracked:
+                    out.append((n, attr_path(t), "all", t, None))
+        elif isinstance(a, (ast.Assign, ast.AnnAssign)):
+            for p in sorted(node_stores(n)):
+                if p in tracked:
+                    out.append((n, p, "rebind", a, assign_value(n, p)))
+                elif p.endswith("[]") and p[:-2] in tracked:
+                    for t in (a.targets if isinstance(a, ast.Assign) else [a.target]):
+                        if isinstance(t, ast.Subscript) and attr_path(t.value) == p[:-2] and isinstance(t.slice, ast.Slice):
+                            out.append((n, p[:-2], "rebind", a, a.value))
+        elif isinstance(a, ast.AugAssign) and attr_path(a.target) in tracked and not isinstance(a.op, (ast.Add, ast.BitOr)):
+            out.append((n, attr_path(a.target), "rebind", a, None))
+    return out
+
+
+def _keeps_all(fn, n, e, p, depth=6):
+    """The value `e` holds every entry of the container `p` (a copy, a sorted copy, a concatenation with more)."""
+    if depth <= 0 or e is None:
+        return False
+    if isinstance(e, ast.Name):
+        e2 = _fnorm(fn).resolve(n, e)
+        return e2 is not e and _keeps_all(fn, n, e2, p, depth - 1)
+    if attr_path(e) == p:
+        return True
+    if isinstance(e, ast.BinOp) and isinstance(e.op, (ast.Add, ast.BitOr)):
+        return _keeps_all(fn, n, e.left, p, depth - 1) or _keeps_all(fn, n, e.right, p, depth - 1)
+    if isinstance(e, ast.Call) and call_tail(e) in COPIERS:
+        if isinstance(e.func, ast.Attribute) and e.func.attr == "copy":
+            return _keeps_all(fn, n, e.func.value, p, depth - 1)
+        return bool(e.args) and _keeps_all(fn, n, e.args[0], p, depth - 1)
+    if isinstance(e, (ast.List, ast.Tuple, ast.Set)):
+        return any(isinstance(x, ast.Starred) and _keeps_all(fn, n, x.value, p, depth - 1) for x in e.elts)
+    if isinstance(e, (ast.ListComp, ast.SetComp, ast.GeneratorExp)) and len(e.generators) == 1:
+        g = e.generators[0]
+        return not g.ifs and attr_path(e.elt) is not None and attr_path(e.elt) == attr_path(g.target) \
+            and _keeps_all(fn, n, g.iter, p, depth - 1)
+    return False
+
+
+def _all_but(fn, n, e, p):
+    """`e` is the container `p` without the single element named x (`[s for s in p if s is not x]`): x, else None."""
+    if isinstance(e, ast.Name):
+        e = _fnorm(fn).resolve(n, e)
+    if isinstance(e, ast.Call) and call_tail(e) in ("list", "sorted") and e.args:
+        e = e.args[0]
+    if not (isinstance(e, (ast.ListComp, ast.GeneratorExp)) and len(e.generators) == 1):
+        return None
+    g = e.generators[0]
+    tv = attr_path(g.target)
+    if tv is None or attr_path(e.elt) != tv or not g.ifs or not _keeps_all(fn, n, g.iter, p):
+        return None
+    xs = set()
+    for cond in g.ifs:
+        f = N(fn).cmp(cond, True)
+        if not f or f[0] not in ("is not", "!=") or tv not in (f[1], f[2]):
+            return None
+        other = f[2] if f[1] == tv else f[1]
+        if not other or not re.match(r"^[A-Za-z_]\w*$", other) or other == "None":
+            return None
+        xs.add(other)
+    return xs.pop() if len(xs) == 1 else None
+
+
+def _stops_fetcher(fn):
+    return lambda q: _stores_const("self._running", False)(q) or _calls(fn, "self.stop")(q)
+
+
+def _outside_stop(fn, n):
+    """Witness of a normal path through node n of `fn` that neither stops the fetcher nor runs on a stopped one."""
+    cfg = fn.cfg()
+    stops = _stops_fetcher(fn)
+    fx = _fnorm(fn)
+
+    def transfer(q, lab, nxt, st):
+        if lab == "exc":
+            return None
+        if q.kind in ("entry", "exit", "raise"):
+            return st
+        passed, stopped = st
+        if fx.edge_fact(q, lab) == ("false", "self._running", None):
+            stopped = True
+        return (passed or q is n, stopped or stops(q))
+    visited, parent = explore(cfg, (False, False), transfer)
+    key = (cfg.exit.id, (True, False))
+    return witness(cfg, parent, key) if key in visited else None
+
+
+def _not_started(fn, n, x):
+    """Witness of a path on which the share named `x`, taken out of the unused list at node n, is not handed to
+    _start_share (neither before the removal nor between the removal and the return / the next binding of x)."""
+    cfg = fn.cfg()
+    fx = _fnorm(fn)
+
+    def starts(q):
+        return any(call_tail(c) == "_start_share" and c.args and (attr_path(c.args[0]) == x or fx.norm(q, c.args[0]) == x)
+                   for c in node_calls(q))
+
+    def has_block(q, lab):       # a share whose block we already hold is of no use to this segment
+        f = fx.edge_fact(q, lab)
+        return bool(f) and f[0] == "in" and f[2] == BLOCKS and f[1] == x + "._shnum"
+    before = find_path_avoiding(cfg, lambda q: q is n, gate_node=starts, gate_edge=has_block,
+                                kill=lambda q: q is not n and x in node_stores(q), skip_exc_edges=True)
+    if not before:
+        return None
+
+    def transfer(q, lab, nxt, st):
+        if lab == "exc":
+            return None
+        if q is not n and (starts(q) or q.kind in ("exit", "raise")):
+            return None
+        if q is not n and x in node_stores(q):
+            return 1
+        return st
+    visited, parent = explore(cfg, 0, transfer, start=n)
+    for (nid, st) in sorted(visited):
+        q = cfg.nodes[nid]
+        if q.kind == "exit" or st == 1:
+            return witness(cfg, parent, (nid, st))
+    return None
+
+
+def _rule_candidates_kept(ctx: Context):
+    """C03.12: the fetcher reaches k only through the shares it has been given.  An entry leaves one of its candidate
+    containers only for a reason of its own: an unused share because it is being started, an active / overdue share
+    because *that* share reported, a block never - or because the fetcher stops."""
+    idx = ctx.idx
+    with ctx.rule("C03.12", "R1/R3", "a share leaves the fetcher's candidate containers only for a reason of its own: the unused "
+                  "list self._shares loses exactly the share that is handed to _start_share, _active_share_map / "
+                  "_overdue_share_map lose exactly the (shnum, share) whose event _block_request_activity is handling, "
+                  "self._blocks loses nothing - except in stop() / on a stopped fetcher", expected=4) as r:
+        fcls = idx.cls(FETCH)
+        ev = idx.func(FETCH + "._block_request_activity")
+        if not calls_in_func(idx.func(FETCH + "._find_and_use_share"), "_start_share"):
+            raise AnchorVanished("_find_and_use_share no longer starts a share")
+        tracked = (UNUSED,) + SHARE_MAPS + (BLOCKS,)
+        what = {UNUSED: "the unused list", SHARE_MAPS[0]: "the map of active requests", SHARE_MAPS[1]: "the map of overdue requests",
+                BLOCKS: "the validated blocks"}
+        lost = ("an intact share that is needed to reach k is never tried (or its request / block is no longer counted) and the "
+                "read fails with NotEnoughSharesError although k good shares are reachable")
+        n_ops = 0
+        for fn in _class_funcs(fcls):
+            if fn.name == "__init__" and fn.parent is None:
+                continue
+            fx = _fnorm(fn)
+            for (n, p, kind, node, payload) in _shrink_ops(fn, tracked):
+                n_ops += 1
+                r.site(fn, node, "%s loses entries here (%s)" % (p, kind))
+                w_out = _outside_stop(fn, n)
+                r.count(len(fn.cfg().nodes))
+                if w_out is None:
+                    continue            # stop(): the fetcher gives everything up
+                where = fn.loc(node)
+                if p == BLOCKS:
+                    r.violation(fn, where, "%s takes entries out of self._blocks (`%s`) while the fetcher is running: a validated "
+                                "block is thrown away and its share is no longer in any list, so the segment cannot reach k "
+                                "(path: %s)" % (short(fn), src(fn, node), w_out.brief()), w_out)
+                    continue
+                if p == UNUSED:
+                    x = None
+                    if kind == "elem":
+                        keys, bound = payload
+                        x = bound or (attr_path(keys[0]) if keys and isinstance(node, ast.Call) and call_tail(node) == "remove" else None)
+                    elif kind == "rebind":
+                        if _keeps_all(fn, n, payload, p):
+                            continue
+                        x = _all_but(fn, n, payload, p)
+                    if x is not None:
+                        w = _not_started(fn, n, x)
+                        if w is None:
+                            continue
+                        r.violation(fn, where, "%s takes share `%s` out of the unused list (`%s`) without handing it to "
+                                    "_start_share: a share that was never requested and never reported a terminal state is "
+                                    "forgotten - %s (path: %s)" % (short(fn), x, src(fn, node)[:80], lost, w.brief()), w)
+                    else:
+                        r.violation(fn, where, "%s drops shares from the unused list self._shares (`%s`) that it does not start: "
+                                    "shares leave that list only one at a time, for _start_share, never because of what "
+                                    "happened to another share or to their server - %s (path: %s)" % (
+                                        short(fn), src(fn, node)[:100], lost, w_out.brief()), w_out)
+                    continue
+                # the maps of requests in flight
+                ok = False
+                if kind == "rebind":
+                    ok = _keeps_all(fn, n, payload, p)
+                elif kind == "elem" and fn is ev:
+                    keys = [fx.norm(n, k) for k in payload[0]]
+                    if isinstance(node, ast.Call) and call_tail(node) in ("discard", "remove") and p == SHARE_MAPS[1]:
+                        ok = keys[:2] == ["shnum", "share"]
+                    else:
+                        ok = keys[:1] == ["shnum"]
+                if not ok:
+                    r.violation(fn, where, "%s takes entries out of %s (`%s`) that are not the (shnum, share) whose own event "
+                                "_block_request_activity is handling: a request in flight (or a slow share that may still "
+                                "answer) is no longer counted, so the no-more-shares test gives the read up while its block "
+                                "is on the way - %s (path: %s)" % (short(fn), what[p], src(fn, node)[:100], lost, w_out.brief()),
+                                w_out)
+        if not n_ops:
+            raise AnchorVanished("SegmentFetcher never takes anything out of its share lists")
+
+
 _run_without_alive = run
 
 
@@ -1581,3 +1843,4 @@ def run(ctx: Context):   # noqa: F811
     _rule_request_accounting(ctx)
     _rule_rejection_isolated(ctx)
     _rule_stopped_fetcher(ctx)
+    _rule_candidates_kept(ctx)
